@@ -7,6 +7,7 @@ import multiprocessing
 import os
 import subprocess
 import sys
+import shutil
 import tempfile
 import time
 
@@ -134,16 +135,72 @@ def run_check(pid, tier, mod=None, extra_stages=(), extra_cov=None):
     DEADLINE[0] = t0 + budget
     ctx = multiprocessing.get_context('fork')
     results = []
+    from engines.pysym import core
+    dump = tempfile.mkdtemp(prefix='verif-smt-')
+    core.E.dump_dir, core.E.dump_every = dump, int(os.environ.get('VERIF_SMT_DUMP_EVERY', 97 if tier == 'quick' else 41))
+    core.E.dump_cap = int(os.environ.get('VERIF_SMT_DUMP_CAP', 2 if tier == 'quick' else 6))
     with ctx.Pool(min(NPROC, max(1, len(obs)))) as pool:
         for r in pool.imap_unordered(_run_ob, [(mod.__name__, ob, sample_paths) for ob in obs], chunksize=1):
             results.append(r)
     results.sort(key=lambda r: r['name'])
+    second = second_solver(dump, limit=(120 if tier == 'quick' else 600))
+    if os.environ.get('VERIF_KEEP_SMT'):
+        shutil.copytree(dump, os.environ['VERIF_KEEP_SMT'], dirs_exist_ok=True)
+    shutil.rmtree(dump, ignore_errors=True)
+    extra_cov = dict(extra_cov or {}, second_solver=second)
+    if second['disagreements']:
+        results.append(dict(paths=0, aborted=0, decisions=0, violations=[], samples=[], exhaustive=False, failures_by_sig={}, queries=0, solver_s=0.0, wall_s=0.0,
+                            leaks=0, name='second-solver', harness='-', params={},
+                            unsupported=['solvers disagree on a dumped path condition: %r' % (x,) for x in second['disagreements'][:3]]))
     extra, ground_bad = None, []
     if hasattr(mod, 'ground_stage'):
         extra, ground_bad = mod.ground_stage()
     if extra_cov:
         extra = dict(extra or {}, **extra_cov)
     return finish(pid, tier, mod, results, t0, seed, extra, ground_bad)
+
+
+def second_solver(d, limit=120, timeout=20):
+    """re-discharges sampled Engine P queries (SMT-LIB2 dumps with the Python z3's verdict) with the z3 4.8.12 and cvc5 1.0.3 binaries;
+    a different sat/unsat answer is a harness error; unknown/timeout/(error lines are inconclusive"""
+    import glob
+    import subprocess
+    import concurrent.futures
+    files = sorted(glob.glob(os.path.join(d, '*.smt2')))
+    step = max(1, len(files) // limit)
+    files = files[::step][:limit]
+    solvers = {'z3-4.8.12': ['/usr/bin/z3', '-T:%d' % timeout], 'cvc5-1.0.3': ['cvc5', '--tlimit=%d' % (timeout * 1000)]}
+    solvers = {k: v for k, v in solvers.items() if shutil.which(v[0])}
+    out = dict(dumped=len(glob.glob(os.path.join(d, '*.smt2'))), rechecked=len(files), solvers={k: dict(agree=0, inconclusive=0, disagree=0) for k in solvers},
+               verdicts={'sat': 0, 'unsat': 0}, disagreements=[])
+
+    def one(f):
+        want = 'unsat' if f.endswith('_unsat.smt2') else 'sat'
+        res = {}
+        for name, cmd in solvers.items():
+            try:
+                p = subprocess.run(cmd + [f], capture_output=True, text=True, timeout=timeout + 10)
+                txt = p.stdout.strip()
+                first = txt.splitlines()[0].strip() if txt else ''
+                res[name] = first if first in ('sat', 'unsat') and '(error' not in txt else 'inconclusive'
+            except Exception:
+                res[name] = 'inconclusive'
+        return f, want, res
+    with concurrent.futures.ThreadPoolExecutor(NPROC) as ex:
+        for f, want, res in ex.map(one, files):
+            out['verdicts'][want] += 1
+            for name, a in res.items():
+                if a == 'inconclusive':
+                    out['solvers'][name]['inconclusive'] += 1
+                elif a == want:
+                    out['solvers'][name]['agree'] += 1
+                else:
+                    out['solvers'][name]['disagree'] += 1
+                    keep = os.path.join(VERIF, 'replays', 'solver-disagreement-' + os.path.basename(f))
+                    os.makedirs(os.path.dirname(keep), exist_ok=True)
+                    shutil.copy(f, keep)
+                    out['disagreements'].append(dict(file=keep, python_z3=want, solver=name, answer=a))
+    return out
 
 
 def finish(pid, tier, mod, results, t0, seed, extra=None, ground_bad=()):
